@@ -155,6 +155,15 @@ class Run:
                 if not options[oi]["debug"] and not options[oi].get("sharestats"):
                     options.append(dict(options[oi], decoy=True))
                     twin[oi] = len(options) - 1
+        # "a call leaves nothing behind": for one parse in seven the runner also parses the second half of the input before the
+        # call and again right after it (option sandwich); the two probes must agree (TraceT1: earlier-result-changed)
+        sand = {}
+        if getattr(self, "decoys", False):
+            for oi in range(len(options)):
+                o_ = options[oi]
+                if not o_["debug"] and not o_.get("sharestats") and not o_.get("decoy") and o_.get("via", "") == "" and not o_.get("panicblk"):
+                    options.append(dict(o_, sandwich=True))
+                    sand[oi] = len(options) - 1
 
         def run(v):
             plan = []
@@ -162,6 +171,8 @@ class Run:
                 for (ii, oi) in plan_for(g):
                     if oi in twin and (g.gi * 31 + ii * 7 + oi) % 6 == 0:
                         oi = twin[oi]
+                    elif oi in sand and (g.gi * 17 + ii * 5 + oi) % 7 == 3:
+                        oi = sand[oi]
                     if v.optimized and (options[oi]["memo"] or options[oi]["debug"]):
                         continue
                     if not v.state_on and options[oi].get("initx", -1) >= 0:
